@@ -184,6 +184,10 @@ def oracle_c14(ctx):
 
 # ------------------------------------------------------------------------------------------------------
 # C06 oracle: forward VALUES through real Tensors / modules vs torch, float32 and float64
+KNOWN_SHAPE_CLASS = "per-row loss has shape (N,1) instead of (N,)"
+KNOWN_SHAPE_SITE = {"NLLLoss": "nn.functional.nll_loss/forward", "CrossEntropyLoss": "nn.functional.cross_entropy/forward"}
+
+
 def _c06_judge(case):
     """None or (expected, observed, note).  case["kind"] in softmax | log_softmax | loss | bn_functional | bn_layer"""
     from lib import impl
@@ -216,8 +220,11 @@ def _c06_judge(case):
             if kind in ("softmax", "log_softmax"):
                 out = (NF.softmax if kind == "softmax" else NF.log_softmax)(T(x), case["dim"])
             elif kind == "loss":
-                mod = (nn.NLLLoss if case["cls"] == "NLLLoss" else nn.CrossEntropyLoss)(reduction=case["reduction"])
-                out = mod(T(x), sg.Tensor(np.array(case["labels"], dtype=np.int64)))
+                yl = sg.Tensor(np.array(case["labels"], dtype=np.int64))
+                if case.get("form") == "functional":
+                    out = (NF.nll_loss if case["cls"] == "NLLLoss" else NF.cross_entropy)(T(x), yl)
+                else:
+                    out = (nn.NLLLoss if case["cls"] == "NLLLoss" else nn.CrossEntropyLoss)(reduction=case["reduction"])(T(x), yl)
             elif kind == "bn_functional":
                 srm, srv = T(case["running_mean"]), T(case["running_var"])
                 out = NF.batch_norm(T(x), T(case["weight"]), T(case["bias"]), srm, srv,
@@ -240,12 +247,19 @@ def _c06_judge(case):
     tol = (1e-4 if case["dtype"] == "float32" else 1e-9) * max(1.0, float(np.max(np.abs(ref))) if ref.size else 1.0)
     if obs.size != ref.size:
         return ref.tolist(), obs.tolist(), "result has %d elements (shape %s), PyTorch's has %d (shape %s)" % (obs.size, obs.shape, ref.size, ref.shape)
-    squeeze_ok = kind == "loss" and case["reduction"] not in ("mean", "sum")      # (N,1) vs PyTorch's (N,): the library's documented layout
-    if obs.shape != ref.shape and not squeeze_ok:
-        return ref.tolist(), obs.tolist(), "result shape %s, PyTorch %s" % (obs.shape, ref.shape)
+    # shapes are compared STRICTLY.  The one deviation of the unchanged tree -- the per-row loss of nll_loss / cross_entropy
+    # (reduction none) has shape (N,1) where PyTorch returns (N,) -- gets its own class (KNOWN_SHAPE_CLASS), so that the
+    # known-findings file can list exactly it; the VALUES are still compared after the reshape, and any other shape is a violation
+    known_shape = False
+    if obs.shape != ref.shape:
+        known_shape = kind == "loss" and case["reduction"] not in ("mean", "sum") and ref.ndim == 1 and obs.shape == (ref.shape[0], 1)
+        if not known_shape:
+            return ref.tolist(), obs.tolist(), "result shape %s, PyTorch %s" % (obs.shape, ref.shape)
     o64, r64 = obs.astype(np.float64).reshape(-1), ref.astype(np.float64).reshape(-1)
     if not np.all(np.isfinite(o64)) or np.any(np.abs(o64 - r64) > tol):
         return ref.tolist(), obs.tolist(), "forward value differs from PyTorch by more than %.1e (%s)" % (tol, case["dtype"])
+    if known_shape:
+        return {"shape": list(ref.shape), "value": ref.tolist()}, {"shape": list(obs.shape), "value": obs.tolist()}, KNOWN_SHAPE_CLASS
     if kind.startswith("bn_") and ref_stats is not None and x.size // x.shape[1] > 1:
         for name, o, r in zip(("running_mean", "running_var"), obs_stats, ref_stats):
             o, r = o.astype(np.float64), r.astype(np.float64)
@@ -275,6 +289,7 @@ def oracle_c06(ctx):
             for cls in ("NLLLoss", "CrossEntropyLoss"):
                 for red in ("mean", "sum", "none"):
                     cases.append({"kind": "loss", "cls": cls, "reduction": red, "dtype": dtype, "x": x, "labels": labels})
+                cases.append({"kind": "loss", "form": "functional", "cls": cls, "reduction": "none", "dtype": dtype, "x": x, "labels": labels})
         for training in (True, False):
             for aff in (True, False):
                 for stats in (True, False):
@@ -292,9 +307,17 @@ def oracle_c06(ctx):
                             cases.append(dict(base, kind="bn_layer"))
     witnesses = 0
     by = {}
+    shape_dev = {}          # site -> (count, smallest case, verdict): the (N,1)-vs-(N,) deviation, reported once per site
     for case in cases:
         by[case["kind"]] = by.get(case["kind"], 0) + 1
         v = _c06_judge(case)
+        if v and v[2] == KNOWN_SHAPE_CLASS:
+            site = KNOWN_SHAPE_SITE[case["cls"]]
+            cnt, best, bv = shape_dev.get(site, (0, None, None))
+            if best is None or np.size(case["x"]) < np.size(best["x"]):
+                best, bv = case, v
+            shape_dev[site] = (cnt + 1, best, bv)
+            continue
         if v:
             witnesses += 1
             if witnesses <= 3:
@@ -306,7 +329,15 @@ def oracle_c06(ctx):
                                     "training=%s affine=%s running=%s rank=%d" % (case["training"], case["weight"] is not None,
                                                                                    case["running_mean"] is not None, np.ndim(case["x"]))))
                 ctx.witness(site, klass, dict(case, oracle="c06"), v[0], v[1], v[2])
-    res = {"cases": len(cases), "by_kind": by, "witnesses": witnesses}
+    n_shape = 0
+    for site, (cnt, case, v) in sorted(shape_dev.items()):
+        # suppressed (KNOWN-FINDING line, exit 0) iff known_findings.json has an OPEN entry with exactly this site and class
+        if ctx.witness(site, KNOWN_SHAPE_CLASS, dict(case, oracle="c06"), v[0], v[1],
+                       "values agree with PyTorch after reshape((-1,)); %d such cases in this run (NLLLoss / CrossEntropyLoss with "
+                       "reduction none and the bare functional)" % cnt):
+            n_shape += 1
+    res = {"cases": len(cases), "by_kind": by, "witnesses": witnesses + n_shape,
+           "per_row_shape_deviation": {site: cnt for site, (cnt, _c, _v) in shape_dev.items()}}
     ctx.extra["oracle_c06_vector"] = res
     return res
 
